@@ -8,11 +8,16 @@
 (* Include recursion runs through the PlusCal call stack:                  *)
 (*   RawLoad(v) parses v and, for every url u in IncSeq(v), calls          *)
 (*   Deferred(u); Load(u)  (Section.include: deferred_load then load).     *)
+(* refresh(u) sets the reload flag, clears the loaded table in one step,    *)
+(* loads u and resets the flag.  The download cache is a function          *)
+(* url -> "absent" | "fresh" | "stale": a fresh copy is used without a     *)
+(* fetch unless the reload flag is set; everything else fetches, and only  *)
+(* a successful fetch writes the cache (CacheInit: its state at the start).*)
 (* Labels that correspond to an observable access of the real code carry   *)
 (* the same name in the scheduler's event log (see LoaderTrace.tla).       *)
 (***************************************************************************)
 EXTENDS Naturals, Sequences, FiniteSets, TLC
-CONSTANTS URLS, Inc, Fetch, Parse, MaxThr, Prog
+CONSTANTS URLS, Inc, Fetch, Parse, MaxThr, Prog, CacheInit
 Absent == 0          \* url not in the table
 NoneV == 99          \* Python None (resource could not be fetched or parsed)
 Thr == 1..MaxThr
@@ -38,6 +43,9 @@ variables loaded = [uu \in URLS |-> Absent],     \* Terminologies dict: url -> d
           err = [pp \in Procs |-> "ok"],          \* exception that killed the process
           results = <<>>,                         \* <<url, value>> of every load() the caller finished
           cachew = {},                            \* urls whose cache file was written
+          cache = CacheInit,                      \* url -> "absent" | "fresh" | "stale"
+          reload = FALSE,                         \* Terminologies.reload_cache
+          epoch = 0,                              \* number of refresh calls the caller has begun
           ret = [pp \in Procs |-> Absent];
 
 procedure Load(u)
@@ -62,8 +70,9 @@ procedure Load(u)
 procedure RawLoad(v)
   variables i = 1, doc = NoneV;
 {
- RFetch: if (~Fetch[v]) { ret[self] := NoneV; return; }
-         else { cachew := cachew \cup {v}; };
+ RFetch: if (cache[v] = "fresh" /\ ~reload) { skip; }               \* served from the cache, no fetch
+         else if (~Fetch[v]) { ret[self] := NoneV; return; }        \* a failed fetch leaves the cache alone
+         else { cachew := cachew \cup {v}; cache[v] := "fresh"; };
  RParse: if (~Parse[v]) { doc := NoneV; goto Pub; } else { ndoc := ndoc + 1; doc := ndoc; };
  Loop:   while (i <= Len(IncSeq(v))) {
             call Deferred(IncSeq(v)[i]);
@@ -92,7 +101,12 @@ process (M \in {Main})
  MLoop: while (k <= Len(Prog)) {
           if (Prog[k][1] = "load") {
              call Load(Prog[k][2]);
- MRes:       results := Append(results, <<Prog[k][2], ret[self]>>);
+ MRes:       results := Append(results, <<Prog[k][2], ret[self], epoch>>);
+          } else if (Prog[k][1] = "refresh") {
+             reload := TRUE; epoch := epoch + 1;
+ RfClear:    loaded := [uu \in URLS |-> Absent];
+             call Load(Prog[k][2]);
+ RfDone:     reload := FALSE;
           } else {
              call Deferred(Prog[k][2]);
           };
@@ -107,13 +121,14 @@ process (T \in Thr)
  TDone:  tstate[self] := "done";
 }
 } *)
-\* BEGIN TRANSLATION (chksum(pcal) = "cdca9639" /\ chksum(tla) = "8fe1f11a")
+\* BEGIN TRANSLATION
 CONSTANT defaultInitValue
 VARIABLES pc, loaded, loading, tstate, targ, nthr, ndoc, err, results, cachew, 
-          ret, stack, u, jt, v, i, doc, w, newt, st, k
+          cache, reload, epoch, ret, stack, u, jt, v, i, doc, w, newt, st, k
 
 vars == << pc, loaded, loading, tstate, targ, nthr, ndoc, err, results, 
-           cachew, ret, stack, u, jt, v, i, doc, w, newt, st, k >>
+           cachew, cache, reload, epoch, ret, stack, u, jt, v, i, doc, w, 
+           newt, st, k >>
 
 ProcSet == ({Main}) \cup (Thr)
 
@@ -127,6 +142,9 @@ Init == (* Global variables *)
         /\ err = [pp \in Procs |-> "ok"]
         /\ results = <<>>
         /\ cachew = {}
+        /\ cache = CacheInit
+        /\ reload = FALSE
+        /\ epoch = 0
         /\ ret = [pp \in Procs |-> Absent]
         (* Procedure Load *)
         /\ u = [ self \in ProcSet |-> defaultInitValue]
@@ -150,8 +168,8 @@ LdIn(self) == /\ pc[self] = "LdIn"
                     THEN /\ pc' = [pc EXCEPT ![self] = "LdGet"]
                     ELSE /\ pc' = [pc EXCEPT ![self] = "LgIn"]
               /\ UNCHANGED << loaded, loading, tstate, targ, nthr, ndoc, err, 
-                              results, cachew, ret, stack, u, jt, v, i, doc, w, 
-                              newt, st, k >>
+                              results, cachew, cache, reload, epoch, ret, 
+                              stack, u, jt, v, i, doc, w, newt, st, k >>
 
 LdGet(self) == /\ pc[self] = "LdGet"
                /\ ret' = [ret EXCEPT ![self] = loaded[u[self]]]
@@ -160,15 +178,16 @@ LdGet(self) == /\ pc[self] = "LdGet"
                /\ u' = [u EXCEPT ![self] = Head(stack[self]).u]
                /\ stack' = [stack EXCEPT ![self] = Tail(stack[self])]
                /\ UNCHANGED << loaded, loading, tstate, targ, nthr, ndoc, err, 
-                               results, cachew, v, i, doc, w, newt, st, k >>
+                               results, cachew, cache, reload, epoch, v, i, 
+                               doc, w, newt, st, k >>
 
 LgIn(self) == /\ pc[self] = "LgIn"
               /\ IF loading[u[self]] # 0
                     THEN /\ pc' = [pc EXCEPT ![self] = "LgGet"]
                     ELSE /\ pc' = [pc EXCEPT ![self] = "Raw"]
               /\ UNCHANGED << loaded, loading, tstate, targ, nthr, ndoc, err, 
-                              results, cachew, ret, stack, u, jt, v, i, doc, w, 
-                              newt, st, k >>
+                              results, cachew, cache, reload, epoch, ret, 
+                              stack, u, jt, v, i, doc, w, newt, st, k >>
 
 LgGet(self) == /\ pc[self] = "LgGet"
                /\ jt' = [jt EXCEPT ![self] = loading[u[self]]]
@@ -178,8 +197,8 @@ LgGet(self) == /\ pc[self] = "LgGet"
                      ELSE /\ pc' = [pc EXCEPT ![self] = "Join"]
                           /\ err' = err
                /\ UNCHANGED << loaded, loading, tstate, targ, nthr, ndoc, 
-                               results, cachew, ret, stack, u, v, i, doc, w, 
-                               newt, st, k >>
+                               results, cachew, cache, reload, epoch, ret, 
+                               stack, u, v, i, doc, w, newt, st, k >>
 
 Join(self) == /\ pc[self] = "Join"
               /\ IF tstate[jt[self]] = "created"
@@ -190,15 +209,15 @@ Join(self) == /\ pc[self] = "Join"
                                ELSE /\ pc' = [pc EXCEPT ![self] = "LgPop"]
                          /\ err' = err
               /\ UNCHANGED << loaded, loading, tstate, targ, nthr, ndoc, 
-                              results, cachew, ret, stack, u, jt, v, i, doc, w, 
-                              newt, st, k >>
+                              results, cachew, cache, reload, epoch, ret, 
+                              stack, u, jt, v, i, doc, w, newt, st, k >>
 
 Joined(self) == /\ pc[self] = "Joined"
                 /\ tstate[jt[self]] = "done"
                 /\ pc' = [pc EXCEPT ![self] = "LgPop"]
                 /\ UNCHANGED << loaded, loading, tstate, targ, nthr, ndoc, err, 
-                                results, cachew, ret, stack, u, jt, v, i, doc, 
-                                w, newt, st, k >>
+                                results, cachew, cache, reload, epoch, ret, 
+                                stack, u, jt, v, i, doc, w, newt, st, k >>
 
 LgPop(self) == /\ pc[self] = "LgPop"
                /\ loading' = [loading EXCEPT ![u[self]] = 0]
@@ -211,7 +230,8 @@ LgPop(self) == /\ pc[self] = "LgPop"
                /\ jt' = [jt EXCEPT ![self] = 0]
                /\ pc' = [pc EXCEPT ![self] = "LdIn"]
                /\ UNCHANGED << loaded, tstate, targ, nthr, ndoc, err, results, 
-                               cachew, ret, v, i, doc, w, newt, st, k >>
+                               cachew, cache, reload, epoch, ret, v, i, doc, w, 
+                               newt, st, k >>
 
 LdRet(self) == /\ pc[self] = "LdRet"
                /\ pc' = [pc EXCEPT ![self] = Head(stack[self]).pc]
@@ -219,7 +239,8 @@ LdRet(self) == /\ pc[self] = "LdRet"
                /\ u' = [u EXCEPT ![self] = Head(stack[self]).u]
                /\ stack' = [stack EXCEPT ![self] = Tail(stack[self])]
                /\ UNCHANGED << loaded, loading, tstate, targ, nthr, ndoc, err, 
-                               results, cachew, ret, v, i, doc, w, newt, st, k >>
+                               results, cachew, cache, reload, epoch, ret, v, 
+                               i, doc, w, newt, st, k >>
 
 Raw(self) == /\ pc[self] = "Raw"
              /\ /\ stack' = [stack EXCEPT ![self] = << [ procedure |->  "RawLoad",
@@ -233,7 +254,8 @@ Raw(self) == /\ pc[self] = "Raw"
              /\ doc' = [doc EXCEPT ![self] = NoneV]
              /\ pc' = [pc EXCEPT ![self] = "RFetch"]
              /\ UNCHANGED << loaded, loading, tstate, targ, nthr, ndoc, err, 
-                             results, cachew, ret, u, jt, w, newt, st, k >>
+                             results, cachew, cache, reload, epoch, ret, u, jt, 
+                             w, newt, st, k >>
 
 RawRet(self) == /\ pc[self] = "RawRet"
                 /\ pc' = [pc EXCEPT ![self] = Head(stack[self]).pc]
@@ -241,34 +263,40 @@ RawRet(self) == /\ pc[self] = "RawRet"
                 /\ u' = [u EXCEPT ![self] = Head(stack[self]).u]
                 /\ stack' = [stack EXCEPT ![self] = Tail(stack[self])]
                 /\ UNCHANGED << loaded, loading, tstate, targ, nthr, ndoc, err, 
-                                results, cachew, ret, v, i, doc, w, newt, st, 
-                                k >>
+                                results, cachew, cache, reload, epoch, ret, v, 
+                                i, doc, w, newt, st, k >>
 
 Halt(self) == /\ pc[self] = "Halt"
               /\ FALSE
               /\ pc' = [pc EXCEPT ![self] = "Error"]
               /\ UNCHANGED << loaded, loading, tstate, targ, nthr, ndoc, err, 
-                              results, cachew, ret, stack, u, jt, v, i, doc, w, 
-                              newt, st, k >>
+                              results, cachew, cache, reload, epoch, ret, 
+                              stack, u, jt, v, i, doc, w, newt, st, k >>
 
 Load(self) == LdIn(self) \/ LdGet(self) \/ LgIn(self) \/ LgGet(self)
                  \/ Join(self) \/ Joined(self) \/ LgPop(self)
                  \/ LdRet(self) \/ Raw(self) \/ RawRet(self) \/ Halt(self)
 
 RFetch(self) == /\ pc[self] = "RFetch"
-                /\ IF ~Fetch[v[self]]
-                      THEN /\ ret' = [ret EXCEPT ![self] = NoneV]
-                           /\ pc' = [pc EXCEPT ![self] = Head(stack[self]).pc]
-                           /\ i' = [i EXCEPT ![self] = Head(stack[self]).i]
-                           /\ doc' = [doc EXCEPT ![self] = Head(stack[self]).doc]
-                           /\ v' = [v EXCEPT ![self] = Head(stack[self]).v]
-                           /\ stack' = [stack EXCEPT ![self] = Tail(stack[self])]
-                           /\ UNCHANGED cachew
-                      ELSE /\ cachew' = (cachew \cup {v[self]})
+                /\ IF cache[v[self]] = "fresh" /\ ~reload
+                      THEN /\ TRUE
                            /\ pc' = [pc EXCEPT ![self] = "RParse"]
-                           /\ UNCHANGED << ret, stack, v, i, doc >>
+                           /\ UNCHANGED << cachew, cache, ret, stack, v, i, 
+                                           doc >>
+                      ELSE /\ IF ~Fetch[v[self]]
+                                 THEN /\ ret' = [ret EXCEPT ![self] = NoneV]
+                                      /\ pc' = [pc EXCEPT ![self] = Head(stack[self]).pc]
+                                      /\ i' = [i EXCEPT ![self] = Head(stack[self]).i]
+                                      /\ doc' = [doc EXCEPT ![self] = Head(stack[self]).doc]
+                                      /\ v' = [v EXCEPT ![self] = Head(stack[self]).v]
+                                      /\ stack' = [stack EXCEPT ![self] = Tail(stack[self])]
+                                      /\ UNCHANGED << cachew, cache >>
+                                 ELSE /\ cachew' = (cachew \cup {v[self]})
+                                      /\ cache' = [cache EXCEPT ![v[self]] = "fresh"]
+                                      /\ pc' = [pc EXCEPT ![self] = "RParse"]
+                                      /\ UNCHANGED << ret, stack, v, i, doc >>
                 /\ UNCHANGED << loaded, loading, tstate, targ, nthr, ndoc, err, 
-                                results, u, jt, w, newt, st, k >>
+                                results, reload, epoch, u, jt, w, newt, st, k >>
 
 RParse(self) == /\ pc[self] = "RParse"
                 /\ IF ~Parse[v[self]]
@@ -279,8 +307,8 @@ RParse(self) == /\ pc[self] = "RParse"
                            /\ doc' = [doc EXCEPT ![self] = ndoc']
                            /\ pc' = [pc EXCEPT ![self] = "Loop"]
                 /\ UNCHANGED << loaded, loading, tstate, targ, nthr, err, 
-                                results, cachew, ret, stack, u, jt, v, i, w, 
-                                newt, st, k >>
+                                results, cachew, cache, reload, epoch, ret, 
+                                stack, u, jt, v, i, w, newt, st, k >>
 
 Loop(self) == /\ pc[self] = "Loop"
               /\ IF i[self] <= Len(IncSeq(v[self]))
@@ -297,7 +325,8 @@ Loop(self) == /\ pc[self] = "Loop"
                     ELSE /\ pc' = [pc EXCEPT ![self] = "Pub"]
                          /\ UNCHANGED << stack, w, newt, st >>
               /\ UNCHANGED << loaded, loading, tstate, targ, nthr, ndoc, err, 
-                              results, cachew, ret, u, jt, v, i, doc, k >>
+                              results, cachew, cache, reload, epoch, ret, u, 
+                              jt, v, i, doc, k >>
 
 IncLoad(self) == /\ pc[self] = "IncLoad"
                  /\ /\ stack' = [stack EXCEPT ![self] = << [ procedure |->  "Load",
@@ -309,15 +338,15 @@ IncLoad(self) == /\ pc[self] = "IncLoad"
                  /\ jt' = [jt EXCEPT ![self] = 0]
                  /\ pc' = [pc EXCEPT ![self] = "LdIn"]
                  /\ UNCHANGED << loaded, loading, tstate, targ, nthr, ndoc, 
-                                 err, results, cachew, ret, v, i, doc, w, newt, 
-                                 st, k >>
+                                 err, results, cachew, cache, reload, epoch, 
+                                 ret, v, i, doc, w, newt, st, k >>
 
 IncNext(self) == /\ pc[self] = "IncNext"
                  /\ i' = [i EXCEPT ![self] = i[self] + 1]
                  /\ pc' = [pc EXCEPT ![self] = "Loop"]
                  /\ UNCHANGED << loaded, loading, tstate, targ, nthr, ndoc, 
-                                 err, results, cachew, ret, stack, u, jt, v, 
-                                 doc, w, newt, st, k >>
+                                 err, results, cachew, cache, reload, epoch, 
+                                 ret, stack, u, jt, v, doc, w, newt, st, k >>
 
 Pub(self) == /\ pc[self] = "Pub"
              /\ loaded' = [loaded EXCEPT ![v[self]] = doc[self]]
@@ -328,7 +357,8 @@ Pub(self) == /\ pc[self] = "Pub"
              /\ v' = [v EXCEPT ![self] = Head(stack[self]).v]
              /\ stack' = [stack EXCEPT ![self] = Tail(stack[self])]
              /\ UNCHANGED << loading, tstate, targ, nthr, ndoc, err, results, 
-                             cachew, u, jt, w, newt, st, k >>
+                             cachew, cache, reload, epoch, u, jt, w, newt, st, 
+                             k >>
 
 RawLoad(self) == RFetch(self) \/ RParse(self) \/ Loop(self)
                     \/ IncLoad(self) \/ IncNext(self) \/ Pub(self)
@@ -343,7 +373,8 @@ DfLdIn(self) == /\ pc[self] = "DfLdIn"
                       ELSE /\ pc' = [pc EXCEPT ![self] = "DfLgIn"]
                            /\ UNCHANGED << stack, w, newt, st >>
                 /\ UNCHANGED << loaded, loading, tstate, targ, nthr, ndoc, err, 
-                                results, cachew, ret, u, jt, v, i, doc, k >>
+                                results, cachew, cache, reload, epoch, ret, u, 
+                                jt, v, i, doc, k >>
 
 DfLgIn(self) == /\ pc[self] = "DfLgIn"
                 /\ IF loading[w[self]] # 0
@@ -360,14 +391,14 @@ DfLgIn(self) == /\ pc[self] = "DfLgIn"
                            /\ pc' = [pc EXCEPT ![self] = "DfSet"]
                            /\ UNCHANGED << stack, w, st >>
                 /\ UNCHANGED << loaded, loading, ndoc, err, results, cachew, 
-                                ret, u, jt, v, i, doc, k >>
+                                cache, reload, epoch, ret, u, jt, v, i, doc, k >>
 
 DfSet(self) == /\ pc[self] = "DfSet"
                /\ loading' = [loading EXCEPT ![w[self]] = newt[self]]
                /\ pc' = [pc EXCEPT ![self] = "DfGet"]
                /\ UNCHANGED << loaded, tstate, targ, nthr, ndoc, err, results, 
-                               cachew, ret, stack, u, jt, v, i, doc, w, newt, 
-                               st, k >>
+                               cachew, cache, reload, epoch, ret, stack, u, jt, 
+                               v, i, doc, w, newt, st, k >>
 
 DfGet(self) == /\ pc[self] = "DfGet"
                /\ st' = [st EXCEPT ![self] = loading[w[self]]]
@@ -377,8 +408,8 @@ DfGet(self) == /\ pc[self] = "DfGet"
                      ELSE /\ pc' = [pc EXCEPT ![self] = "DfStart"]
                           /\ err' = err
                /\ UNCHANGED << loaded, loading, tstate, targ, nthr, ndoc, 
-                               results, cachew, ret, stack, u, jt, v, i, doc, 
-                               w, newt, k >>
+                               results, cachew, cache, reload, epoch, ret, 
+                               stack, u, jt, v, i, doc, w, newt, k >>
 
 DfStart(self) == /\ pc[self] = "DfStart"
                  /\ tstate' = [tstate EXCEPT ![st[self]] = "running"]
@@ -388,14 +419,15 @@ DfStart(self) == /\ pc[self] = "DfStart"
                  /\ w' = [w EXCEPT ![self] = Head(stack[self]).w]
                  /\ stack' = [stack EXCEPT ![self] = Tail(stack[self])]
                  /\ UNCHANGED << loaded, loading, targ, nthr, ndoc, err, 
-                                 results, cachew, ret, u, jt, v, i, doc, k >>
+                                 results, cachew, cache, reload, epoch, ret, u, 
+                                 jt, v, i, doc, k >>
 
 DHalt(self) == /\ pc[self] = "DHalt"
                /\ FALSE
                /\ pc' = [pc EXCEPT ![self] = "Error"]
                /\ UNCHANGED << loaded, loading, tstate, targ, nthr, ndoc, err, 
-                               results, cachew, ret, stack, u, jt, v, i, doc, 
-                               w, newt, st, k >>
+                               results, cachew, cache, reload, epoch, ret, 
+                               stack, u, jt, v, i, doc, w, newt, st, k >>
 
 Deferred(self) == DfLdIn(self) \/ DfLgIn(self) \/ DfSet(self)
                      \/ DfGet(self) \/ DfStart(self) \/ DHalt(self)
@@ -404,8 +436,8 @@ MBegin(self) == /\ pc[self] = "MBegin"
                 /\ TRUE
                 /\ pc' = [pc EXCEPT ![self] = "MLoop"]
                 /\ UNCHANGED << loaded, loading, tstate, targ, nthr, ndoc, err, 
-                                results, cachew, ret, stack, u, jt, v, i, doc, 
-                                w, newt, st, k >>
+                                results, cachew, cache, reload, epoch, ret, 
+                                stack, u, jt, v, i, doc, w, newt, st, k >>
 
 MLoop(self) == /\ pc[self] = "MLoop"
                /\ IF k[self] <= Len(Prog)
@@ -418,45 +450,76 @@ MLoop(self) == /\ pc[self] = "MLoop"
                                         /\ u' = [u EXCEPT ![self] = Prog[k[self]][2]]
                                      /\ jt' = [jt EXCEPT ![self] = 0]
                                      /\ pc' = [pc EXCEPT ![self] = "LdIn"]
-                                     /\ UNCHANGED << w, newt, st >>
-                                ELSE /\ /\ stack' = [stack EXCEPT ![self] = << [ procedure |->  "Deferred",
-                                                                                 pc        |->  "MNext",
-                                                                                 newt      |->  newt[self],
-                                                                                 st        |->  st[self],
-                                                                                 w         |->  w[self] ] >>
-                                                                             \o stack[self]]
-                                        /\ w' = [w EXCEPT ![self] = Prog[k[self]][2]]
-                                     /\ newt' = [newt EXCEPT ![self] = 0]
-                                     /\ st' = [st EXCEPT ![self] = 0]
-                                     /\ pc' = [pc EXCEPT ![self] = "DfLdIn"]
+                                     /\ UNCHANGED << reload, epoch, w, newt, 
+                                                     st >>
+                                ELSE /\ IF Prog[k[self]][1] = "refresh"
+                                           THEN /\ reload' = TRUE
+                                                /\ epoch' = epoch + 1
+                                                /\ pc' = [pc EXCEPT ![self] = "RfClear"]
+                                                /\ UNCHANGED << stack, w, newt, 
+                                                                st >>
+                                           ELSE /\ /\ stack' = [stack EXCEPT ![self] = << [ procedure |->  "Deferred",
+                                                                                            pc        |->  "MNext",
+                                                                                            newt      |->  newt[self],
+                                                                                            st        |->  st[self],
+                                                                                            w         |->  w[self] ] >>
+                                                                                        \o stack[self]]
+                                                   /\ w' = [w EXCEPT ![self] = Prog[k[self]][2]]
+                                                /\ newt' = [newt EXCEPT ![self] = 0]
+                                                /\ st' = [st EXCEPT ![self] = 0]
+                                                /\ pc' = [pc EXCEPT ![self] = "DfLdIn"]
+                                                /\ UNCHANGED << reload, epoch >>
                                      /\ UNCHANGED << u, jt >>
                      ELSE /\ pc' = [pc EXCEPT ![self] = "Done"]
-                          /\ UNCHANGED << stack, u, jt, w, newt, st >>
+                          /\ UNCHANGED << reload, epoch, stack, u, jt, w, newt, 
+                                          st >>
                /\ UNCHANGED << loaded, loading, tstate, targ, nthr, ndoc, err, 
-                               results, cachew, ret, v, i, doc, k >>
+                               results, cachew, cache, ret, v, i, doc, k >>
 
 MNext(self) == /\ pc[self] = "MNext"
                /\ k' = [k EXCEPT ![self] = k[self] + 1]
                /\ pc' = [pc EXCEPT ![self] = "MLoop"]
                /\ UNCHANGED << loaded, loading, tstate, targ, nthr, ndoc, err, 
-                               results, cachew, ret, stack, u, jt, v, i, doc, 
-                               w, newt, st >>
+                               results, cachew, cache, reload, epoch, ret, 
+                               stack, u, jt, v, i, doc, w, newt, st >>
 
 MRes(self) == /\ pc[self] = "MRes"
-              /\ results' = Append(results, <<Prog[k[self]][2], ret[self]>>)
+              /\ results' = Append(results, <<Prog[k[self]][2], ret[self], epoch>>)
               /\ pc' = [pc EXCEPT ![self] = "MNext"]
               /\ UNCHANGED << loaded, loading, tstate, targ, nthr, ndoc, err, 
-                              cachew, ret, stack, u, jt, v, i, doc, w, newt, 
-                              st, k >>
+                              cachew, cache, reload, epoch, ret, stack, u, jt, 
+                              v, i, doc, w, newt, st, k >>
+
+RfClear(self) == /\ pc[self] = "RfClear"
+                 /\ loaded' = [uu \in URLS |-> Absent]
+                 /\ /\ stack' = [stack EXCEPT ![self] = << [ procedure |->  "Load",
+                                                             pc        |->  "RfDone",
+                                                             jt        |->  jt[self],
+                                                             u         |->  u[self] ] >>
+                                                         \o stack[self]]
+                    /\ u' = [u EXCEPT ![self] = Prog[k[self]][2]]
+                 /\ jt' = [jt EXCEPT ![self] = 0]
+                 /\ pc' = [pc EXCEPT ![self] = "LdIn"]
+                 /\ UNCHANGED << loading, tstate, targ, nthr, ndoc, err, 
+                                 results, cachew, cache, reload, epoch, ret, v, 
+                                 i, doc, w, newt, st, k >>
+
+RfDone(self) == /\ pc[self] = "RfDone"
+                /\ reload' = FALSE
+                /\ pc' = [pc EXCEPT ![self] = "MNext"]
+                /\ UNCHANGED << loaded, loading, tstate, targ, nthr, ndoc, err, 
+                                results, cachew, cache, epoch, ret, stack, u, 
+                                jt, v, i, doc, w, newt, st, k >>
 
 M(self) == MBegin(self) \/ MLoop(self) \/ MNext(self) \/ MRes(self)
+              \/ RfClear(self) \/ RfDone(self)
 
 TBegin(self) == /\ pc[self] = "TBegin"
                 /\ tstate[self] = "running"
                 /\ pc' = [pc EXCEPT ![self] = "TRun"]
                 /\ UNCHANGED << loaded, loading, tstate, targ, nthr, ndoc, err, 
-                                results, cachew, ret, stack, u, jt, v, i, doc, 
-                                w, newt, st, k >>
+                                results, cachew, cache, reload, epoch, ret, 
+                                stack, u, jt, v, i, doc, w, newt, st, k >>
 
 TRun(self) == /\ pc[self] = "TRun"
               /\ /\ stack' = [stack EXCEPT ![self] = << [ procedure |->  "RawLoad",
@@ -470,14 +533,15 @@ TRun(self) == /\ pc[self] = "TRun"
               /\ doc' = [doc EXCEPT ![self] = NoneV]
               /\ pc' = [pc EXCEPT ![self] = "RFetch"]
               /\ UNCHANGED << loaded, loading, tstate, targ, nthr, ndoc, err, 
-                              results, cachew, ret, u, jt, w, newt, st, k >>
+                              results, cachew, cache, reload, epoch, ret, u, 
+                              jt, w, newt, st, k >>
 
 TDone(self) == /\ pc[self] = "TDone"
                /\ tstate' = [tstate EXCEPT ![self] = "done"]
                /\ pc' = [pc EXCEPT ![self] = "Done"]
                /\ UNCHANGED << loaded, loading, targ, nthr, ndoc, err, results, 
-                               cachew, ret, stack, u, jt, v, i, doc, w, newt, 
-                               st, k >>
+                               cachew, cache, reload, epoch, ret, stack, u, jt, 
+                               v, i, doc, w, newt, st, k >>
 
 T(self) == TBegin(self) \/ TRun(self) \/ TDone(self)
 
